@@ -101,9 +101,18 @@ UpdateHostSet_E(s, e) ==
   ELSE [s EXCEPT !.hostH = e.height, !.hostVals = e.set]
 UpdateHostSet_R(s, e) == [applied |-> ~(e.client = "" \/ e.client # s.client \/ e.height <= s.hostH)]
 
-Guards(s, e) == CASE e.type = "UpdateOracle" -> UpdateOracle_G(s, e) [] e.type = "UpdateHostSet" -> UpdateHostSet_G(s, e)
-Effect(s, e) == CASE e.type = "UpdateOracle" -> UpdateOracle_E(s, e) [] e.type = "UpdateHostSet" -> UpdateHostSet_E(s, e)
-Resp(s, e)   == CASE e.type = "UpdateOracle" -> UpdateOracle_R(s, e) [] e.type = "UpdateHostSet" -> UpdateHostSet_R(s, e)
+(* SetBridgeInfo as far as the oracle is concerned: an executor re-sends the bridge info with an L1 client id; once a  *)
+(* client id is bound it can be neither changed nor cleared (msg_server.go:SetBridgeInfo)                              *)
+SetClient_G(s, e) ==
+  [ valid       |-> ValidAddr(e.signer),
+    executor    |-> IsExecutor(s, e.signer),
+    bindingSame |-> s.client = "" \/ e.client = s.client ]
+SetClient_E(s, e) == [s EXCEPT !.client = e.client]
+SetClient_R(s, e) == [client |-> e.client]
+
+Guards(s, e) == CASE e.type = "UpdateOracle" -> UpdateOracle_G(s, e) [] e.type = "UpdateHostSet" -> UpdateHostSet_G(s, e) [] e.type = "SetClient" -> SetClient_G(s, e)
+Effect(s, e) == CASE e.type = "UpdateOracle" -> UpdateOracle_E(s, e) [] e.type = "UpdateHostSet" -> UpdateHostSet_E(s, e) [] e.type = "SetClient" -> SetClient_E(s, e)
+Resp(s, e)   == CASE e.type = "UpdateOracle" -> UpdateOracle_R(s, e) [] e.type = "UpdateHostSet" -> UpdateHostSet_R(s, e) [] e.type = "SetClient" -> SetClient_R(s, e)
 NoResp == [none |-> TRUE]
 Step(s, e) ==
   LET g == Guards(s, e) ok == AllTrue(g) IN
@@ -128,5 +137,6 @@ HeightNotOlder(s, o, t) == (o.e.type = "UpdateOracle" /\ o.ok) => (s.hostH > 0 /
 HostSetOnlyForward(s, o, t) ==
   (t.hostVals # s.hostVals \/ t.hostH # s.hostH) => (o.e.type = "UpdateHostSet" /\ t.hostH > s.hostH /\ o.e.client = s.client /\ t.hostVals = o.e.set)
 NoEffectOnReject(s, o, t) == ~o.ok => t = s
+ClientBound(s, o, t) == s.client # "" => t.client = s.client      \* the L1 light client the recorded set comes from never changes
 
 =============================================================================
